@@ -29,6 +29,7 @@ RULE = (
     ' Round 5: input names with several dots and dotted directories, content of the other format than the extension, backup path a proper prefix of the input path.'
     ' Round 6: backup name equal to the input/output name up to letter case.'
     " Round 7: UTF-8 BOM with cp1252 tried first, edits of a chart's extra components only."
+    ' Round 8: a stale file under the backup name.'
 )
 ASSUMPTIONS = ["Python codecs", "MemoryFS is an honest in-memory filesystem"]
 MONITORS = ["detection", "loaded_content", "mutate_output", "mutate_backup", "input_untouched", "no_other_file",
